@@ -34,6 +34,8 @@ def run(chk):
             # distinct paths per cell, as the property quantifies
             for i, img in enumerate(c["pool"]):
                 img["path"] = "%s-%d" % (img["path"], i)
+                if not img["checksums"]:
+                    img["checksums"] = {"sha256": "d" * 64}        # the property is about images the library agrees to write
             # ... but two different images in different cells may carry the same path string
             if rng.random() < 0.4:
                 where = {}
@@ -43,6 +45,8 @@ def run(chk):
                 if pairs:
                     i, j = rng.choice(pairs)
                     c["pool"][j]["path"] = c["pool"][i]["path"]
+            if rng.random() < 0.3:
+                c["empty_buckets"] = [[rng.choice(S.VARIANTS), rng.choice(S.ARCHES)]]       # a cell without images is not content
             cases.append(c)
     cases = cases[:N[chk.tier]]
 
